@@ -17,7 +17,7 @@ import (
 func init() {
 	register("C08", Meta{
 		Explanation: "Only the tables and directions of the confirm->execute->attest loop are decided: (event-kinds) every contract event that carries _eventNonce has a hub event type that is registered with the codec, has a case in the handler's type switch and implements Hash/Validate (frozen kind table), and for the deposit, batch-executed and valset-updated events the signature strings the Rust orchestrator subscribes to equal the canonical signatures computed from the .sol declarations; (attribution) the three …Confirmations queries attribute each signature to the external address of the validator it is stored under; (nonce-directions) the contract demands strictly increasing valset / per-token batch / invalidation nonces, block.number < timeout and cumulative power strictly above the threshold, while the hub's counters only ever grow by one and a batch is withdrawn only under Timeout < observed height (C13), so what the hub withdraws the contract can no longer execute; (minter-threshold) the Minter multisig is built with threshold 667 of weights power*1000/total (connector), the same in the signing and in the submitting path; (digest / signer-set / batch-shape) the clauses of C07, C09, C10 and C13 that executability needs (digest agreement, signer-set membership, normalisation, ordering and nonce, non-empty capped batches with gap-free counters, batches withdrawn only when no longer executable) are re-checked here.",
-		NotDecided: []string{"that the contract / multisig accepts what more than the threshold of the current set confirmed, over all histories, power distributions and relayer choices (the bulk of the property)", "signature validity", "continuity of balances", "digest agreement is C07, set ordering and nonce C09, batch shape C10", "the orchestrator's LogicCallEvent signature literal does not match the contract declaration (advisory: no admissible history reaches a logic call)"},
+		NotDecided:  []string{"that the contract / multisig accepts what more than the threshold of the current set confirmed, over all histories, power distributions and relayer choices (the bulk of the property)", "signature validity", "continuity of balances", "digest agreement is C07, set ordering and nonce C09, batch shape C10", "the orchestrator's LogicCallEvent signature literal does not match the contract declaration (advisory: no admissible history reaches a logic call)"},
 		Assumptions: append(append([]string{}, commonAssumptions...), "Hub2.sol is read by the purpose-built reader in sa/sol", "Rust sources are only searched for string literals of the form \"Name(type,…)\""),
 	}, checkC08)
 }
@@ -197,6 +197,10 @@ func checkC08(c *Ctx) {
 	c.include("signer-set", "C17", rulesIn("C17.guards", "C17.key-shape"))
 	c.include("batch-shape", "C10", rulesIn("C10.non-empty", "C10.cap", "C10.counters"))
 	c.include("batch-shape", "C13", rulesIn("C13.older-same-token", "C13.timeout-guard", "C13.cancel-callers"))
+
+	// ---- value semantics: what is stamped / wired must reach the object that is stored and used ---------
+	r.Min("C08.value-semantics", 1)
+	c.checkValueSemantics("C08.value-semantics")
 
 	// ---- minter threshold ---------------------------------------------------------------------------
 	c.checkMinterThreshold()
